@@ -417,7 +417,9 @@ pub fn gen_deriv(rng: &mut Rng, p: &Pools) -> Deriv {
         // the parsed URL ends in `;` / `#` although the text does not (F20)
         "https://x.org/a;${VP_EMPTY}", "https://x.org/a#${VP_EMPTY}", "https://x.org/a;\u{1}", "https://x.org/b#\u{1f}", "https://x.org/${VP_TOKEN_1}",
         // percent signs in the path and the fragment of file URLs (decoded by the extension feature)
-        "file:///tmp/p#x%2541", "file:///tmp/a%2541/b#c%25d", "file:///tmp/p.tar.gz#egg=pkg&subdirectory=python%2Fpkg", "file:///tmp/p%20q#egg=a%20b", "https://x.org/p#x%2541"];
+        "file:///tmp/p#x%2541", "file:///tmp/a%2541/b#c%25d", "file:///tmp/p.tar.gz#egg=pkg&subdirectory=python%2Fpkg", "file:///tmp/p%20q#egg=a%20b", "https://x.org/p#x%2541",
+        // more than one `#`: the fragment starts at the FIRST one
+        "file:///tmp/p.whl#sha256=abc#egg=demo", "https://x.org/p.whl#a#b"];
     let name = rng.pick(&names).to_string();
     let ex = if rng.chance(1, 2) { None } else { let n = rng.below(3); Some((0..n).map(|_| rng.pick(&extras).to_string()).collect()) };
     let (sp, url) = match rng.below(4) {
@@ -543,7 +545,10 @@ pub fn run(out: &mut Out, tier: &str, seed: u64, prop: &str) {
                 let field = |l: &str, i: usize| l.split(' ').find_map(|f| f.strip_prefix("vu=url:")).and_then(|v| v.split(':').nth(i)).map(|x| x.to_string()).unwrap_or_default();
                 let strip = |l: &str| l.split(' ').filter(|f| !f.starts_with("vu=")).collect::<Vec<_>>().join(" ");
                 out.stat("c07.ext_file_url_compared_decoded");
-                field(&ans, 0) == field(&want_prefix, 0) && dec(&field(&ans, 1)) == dec(&field(&want_prefix, 1)) && strip(&ans).starts_with(&strip(&want_prefix))
+                // path and fragment are compared SEPARATELY (a `#` that moved from the fragment into the path as `%23` must show)
+                let parts = |h: &str| url::Url::parse(&unhex(h)).map(|u| (urlencoding::decode(u.path()).map(|c| c.into_owned()).unwrap_or_default(), u.fragment().map(|f| urlencoding::decode(f).map(|c| c.into_owned()).unwrap_or_default()))).ok();
+                let _ = &dec;
+                field(&ans, 0) == field(&want_prefix, 0) && parts(&field(&ans, 1)).is_some() && parts(&field(&ans, 1)) == parts(&field(&want_prefix, 1)) && strip(&ans).starts_with(&strip(&want_prefix))
             };
             if !ans.starts_with(&want_prefix) && !ext_file_same {
                 out.oracle_fail("C07", "the parsed requirement does not have the derivation's components (name, extras, specifiers/URL, marker)", serde_json::json!({"text": text, "got": ans, "want": want_prefix}));
@@ -735,6 +740,8 @@ pub fn run(out: &mut Out, tier: &str, seed: u64, prop: &str) {
             "requests-2.26.0.tar.gz", "foo.whl", "x.zip", "a.tar.bz2", "a.tgz", "pkg-1.0.tar.xz", "A.TAR.GZ", "a.tar", "a.tbz", "a.tar.lzma", "dir/a.whl", "~/x", "\\\\server\\share", "foo.tar.gz.sig",
             "${VP_HOME_DIR}/x", "a.tlz", "a.txz", "a.tar.lz", "b.b.zip", "n.gz", "tar.gz", "x.tar.gz2",
             // non-ASCII text: byte lengths and char counts differ
+            // more than one `#` in a path: the fragment starts at the first one, the file is the part before it
+            "/srv/wheels/demo-1.0-py3-none-any.whl#sha256=abc#egg=demo", "./dist/demo-1.0.tar.gz#subdirectory=pkg#frag",
             // a closing bracket that closes nothing (the bracket depth of the token scan must not go below zero)
             "./dir]/pkg.whl", "https://example.org/a]b/pkg-1.0.whl", "/x]]/y.tar.gz",
             // archive file names that are not package names (local version `+`, leading `_`, non-ASCII letter): the archive
@@ -1056,6 +1063,16 @@ fn unnamed_oracle(out: &mut Out, text: &str, shape: &str, suffix: &str) {
                     if u.url.to_string() != want.to_string() {
                         out.oracle_fail("C19", &format!("the unnamed parser does not recover the URL: got {}, the expanded text denotes {}", u.url, want), input.clone());
                     }
+                }
+            }
+            // paths: the file is the text before the first `#` (made absolute against the working directory), the rest the fragment
+            if shape.starts_with('/') || shape.starts_with("./") {
+                let (file, frag) = match shape.split_once('#') { Some((f, g)) => (f, Some(g)), None => (shape, None) };
+                let abs = if let Some(rest) = file.strip_prefix("./") { format!("/work/{rest}") } else { file.to_string() };
+                let got_path = urlencoding::decode(u.url.to_url().path()).map(|c| c.into_owned()).unwrap_or_default();
+                let got_frag = u.url.to_url().fragment().map(|f| urlencoding::decode(f).map(|c| c.into_owned()).unwrap_or_default());
+                if !abs.contains("..") && !abs.contains('$') && (got_path != abs || got_frag.as_deref() != frag) {
+                    out.oracle_fail("C19", &format!("the unnamed parser does not recover the file / fragment of a path: got path {got_path:?} fragment {got_frag:?}, the text denotes {abs:?} / {frag:?}"), input.clone());
                 }
             }
             if u.url.given() != Some(shape) {
